@@ -74,7 +74,11 @@ CHECKS.append(chk("C15", "exploration",
     "(a) Multi-writer histories with unique write times in arbitrary order (every writer's clock rewinds) and byte-identical retries of earlier effective single-key statements on any writer: all outcomes and rows are compared with the reference model (an older write never overrides a newer one, cell by cell); around every retry the merged table must be unchanged, and so must the rows of a retrying writer that already holds the effect. (b) A state machine over UPDATE s3db_conn (valid, NULL, '', malformed; one or both columns), reads of s3db_conn, INSERTs and transactions with mid-transaction write_time changes, on two tables and a second untouched connection: attributes read back exactly the last accepted values, every written cell carries the write_time in force for its statement, a past deadline fails exactly the writes issued while set, nothing moves on the other connection.",
     "stateful property-based testing (rapid): model + metamorphic (retry leaves merged contents unchanged) + entry-level timestamp inspection"))
 
-for pid in ["C03","C17","C18","C19","C20"]:
+CHECKS.append(chk("C20", "exploration",
+    "Grammar-based generation of CREATE VIRTUAL TABLE argument lists over the documented surface (column specifications with plain / single- / double-quoted names incl. spaces, keywords, non-ASCII and embedded quotes, optional types, PRIMARY KEY inline or trailing, NOT NULL on the key, keyword case and whitespace varied; options in any order), half of them with one mutation from the property's list of invalid forms. Accept oracle: pragma table_info equals that of a native table declared from the same specification with proper quoting, rows come back under the specified names, a NULL key is refused. Reject oracle: error, no table registered, no PUT/DELETE in the request log, the corrected definition of the same name then succeeds. Thorough tier adds coverage-guided native fuzzing of the columns parser (no panic, no hang).",
+    "grammar-based property-based testing (rapid) with accept/reject model + differential declaration check against SQLite; native go fuzzing of the parser"))
+
+for pid in ["C03","C17","C18","C19"]:
     NOT_YET[pid] = "check under construction in this session (designed in DESIGN.md section 5); not claimed until its quick tier runs clean on the unchanged tree"
 
 MANIFEST = {
